@@ -385,6 +385,13 @@ impl NHistory {
                 _ => self.violate("C19", format!("unexpected result {} for a datagram from an unconnected address", obs.to_text())),
             }
         }
+        // a connection response that the server has acted on before never establishes a session again: the challenge it
+        // echoes belongs to an attempt that is over (whatever happened to the token since)
+        if replayed && !is_request && kind == 3 && prefix_info(&data).map(|(ty, _)| ty == 3).unwrap_or(false) {
+            for prop in ["C04", "C07", "C17", "C19", "C20"] {
+                self.violate(prop, format!("a replayed connection response from {} established a session again ({}): sequence numbers restart under the same keys and recorded payloads become acceptable once more", from, obs.to_text().chars().take(40).collect::<String>()));
+            }
+        }
         // C07: an inauthentic or replayed datagram changes nothing
         let reused = genuine_of.map(|(k, _)| self.client_token_reused(k)).unwrap_or(false);
         let must_be_noop = known_inauthentic || (replayed && !is_request && !reused);
@@ -934,6 +941,20 @@ impl NHistory {
                     self.feat("tampered_or_crossed_to_client");
                 }
                 self.to_client(target, data, if unmodified { Some(i) } else { None }, inauthentic);
+            }
+            159 => {
+                // (159 k i): client k's i-th datagram (counted from its first one) is delivered to the server again, unmodified
+                let (k, i) = (u(1).unwrap_or(0), u(2).unwrap_or(0) as usize);
+                let from = self.client_addr.get(&k).copied();
+                let len = self.out_c.get(&k).map(|l| l.len()).unwrap_or(0);
+                match from {
+                    Some(from) if i < len => {
+                        let data = self.out_c[&k][i].bytes.clone();
+                        self.feat("recorded_datagram_replayed");
+                        self.to_server(from, data, Some((k, i)), false);
+                    }
+                    _ => self.comment("datagram does not exist: skipped"),
+                }
             }
             156 => {
                 // (156 k back): a datagram client k emitted comes back to client k itself
